@@ -63,6 +63,7 @@ Record world := W {
   w_now : Z;
   w_nodes : list node;            (* the Nodes whose spec.providerID is the instance's id, by name order *)
   w_claim : option claim;
+  w_twin : option claim;          (* a second NodeClaim object whose status.providerID is the same (duplicate) *)
   w_pods : list pod;
   w_vas : list va;
   w_inst : inst;                  (* the provider's view of the instance *)
@@ -96,7 +97,9 @@ Inductive eff :=
 | ERmClaimFin (ok : bool)
 | EAddFin (ok : bool)
 | EProvCreate (ok : bool)
-| EPersist (ok : bool).          (* launch: metadata patch + status patch both succeeded *)
+| EPersist (ok : bool)           (* launch: metadata patch + status patch both succeeded *)
+| EDelTwin (ok : bool)           (* the same two writes of the node controller, aimed at the duplicate claim *)
+| EStatusTwin (ok : bool) (d : dcond) (v : vcond) (t : bool).
 
 Inductive op :=
 | RNode (i : Z) (f : fault)
@@ -108,7 +111,11 @@ Inductive op :=
 | EnvReady (i : Z) (b : bool)
 | EnvDelNode (i : Z) | EnvDelClaim
 | EnvRegister
-| EnvRestart.
+| EnvRestart
+| EnvInstShutting
+(* reconciles that are handed an object read from a lagging cache: an older version of the Node / NodeClaim *)
+| RNodeStale (old : node) (f : fault)
+| RClaimStale (old : claim) (f : fault).          (* the provider starts terminating the instance on its own (spot reclaim, user) *)
 
 (* ------------------------------------------------------------------ small helpers *)
 
@@ -178,9 +185,20 @@ Definition prov_create (s : inst) : inst := match s with INone | IGone => IRunni
 
 (* ------------------------------------------------------------------ node termination controller *)
 
-(* NodeClaimForNode: the claim whose status.providerID is the node's *)
+(* NodeClaimForNode: the one claim whose status.providerID is the node's; with two of them the controller goes on
+   as if there were none (IgnoreDuplicateNodeClaimError) *)
+Definition with_pid (oc : option claim) : option claim :=
+  match oc with Some c => if c_pid c then Some c else None | None => None end.
 Definition visible_claim (w : world) : option claim :=
-  match w_claim w with Some c => if c_pid c then Some c else None | None => None end.
+  match with_pid (w_claim w), with_pid (w_twin w) with
+  | Some c, None => Some c
+  | None, Some c => Some c
+  | _, _ => None
+  end.
+(* the claim the node controller works on is the duplicate object *)
+Definition on_twin (w : world) : bool :=
+  match with_pid (w_claim w), with_pid (w_twin w) with None, Some _ => true | _, _ => false end.
+Definition duplicates (w : world) : bool := is_some (with_pid (w_claim w)) && is_some (with_pid (w_twin w)).
 
 (* nodeTerminationTime: None = parse error *)
 Definition term_time (oc : option claim) : option (option Z) :=
@@ -199,6 +217,21 @@ Definition vcond_eqb (a b : vcond) : bool :=
   match a, b with VNone, VNone | VUnknown, VUnknown | VTrue, VTrue | VFalse, VFalse => true | _, _ => false end.
 Definition conds_eqb (a b : conds) : bool :=
   let '(d1, v1, t1) := a in let '(d2, v2, t2) := b in dcond_eqb d1 d2 && vcond_eqb v1 v2 && Bool.eqb t1 t2.
+
+(* equality of API objects (same resourceVersion): an optimistic-lock patch from a different version conflicts *)
+Definition opt_eqb {A} (e : A -> A -> bool) (a b : option A) : bool :=
+  match a, b with Some x, Some y => e x y | None, None => true | _, _ => false end.
+Definition annot_eqb (a b : annot) : bool :=
+  match a, b with ANone, ANone | ABad, ABad => true | AAt s, AAt t => s =? t | _, _ => false end.
+Definition node_eqb (a b : node) : bool :=
+  (n_id a =? n_id b) && Bool.eqb (n_managed a) (n_managed b) && Bool.eqb (n_fin a) (n_fin b)
+  && Bool.eqb (n_del a) (n_del b) && Bool.eqb (n_taint a) (n_taint b) && Bool.eqb (n_lbl a) (n_lbl b)
+  && Bool.eqb (n_ready a) (n_ready b).
+Definition claim_eqb (a b : claim) : bool :=
+  Bool.eqb (c_managed a) (c_managed b) && Bool.eqb (c_fin a) (c_fin b) && opt_eqb Z.eqb (c_del a) (c_del b)
+  && Bool.eqb (c_pid a) (c_pid b) && Bool.eqb (c_registered a) (c_registered b)
+  && opt_eqb Z.eqb (c_tgp a) (c_tgp b) && annot_eqb (c_annot a) (c_annot b)
+  && dcond_eqb (c_drained a) (c_drained b) && vcond_eqb (c_vol a) (c_vol b) && Bool.eqb (c_term a) (c_term b).
 
 (* outcome of the three await functions: conditions in memory, provider effects,
    result (ROk = fall through to finalizer removal) *)
@@ -255,11 +288,15 @@ Definition await_drain (hc : bool) (i : Z) (w : world) (f : fault) (dl : option 
        else await_volumes hc i w f dl ((if hc then DTrue else d1), v, t)
   end.
 
-Definition rm_node_fin (i : Z) (f : fault) : list eff * res :=
+(* removeFinalizer: a strategic merge patch without lock; [cur] = the node object in the API right now *)
+Definition rm_node_fin (i : Z) (cur : option node) (f : fault) : list eff * res :=
   match fails f SRmNodeFin with
   | Some KNotFound => ([ERmNodeFin i false], ROk)
   | Some _ => ([ERmNodeFin i false], RErr)
-  | None => ([ERmNodeFin i true], ROk)
+  | None => match cur with
+            | Some _ => ([ERmNodeFin i true], ROk)
+            | None => ([ERmNodeFin i false], ROk)          (* NotFound is ignored *)
+            end
   end.
 
 (* answer of the optimistic-lock status patch of the node controller *)
@@ -273,7 +310,7 @@ Definition status_patch_ans (f : fault) (cgone stale : bool) : patch_ans :=
   end.
 
 (* awaitDrain -> awaitVolumeDetachment -> awaitInstanceTermination, the status patch, the finalizer *)
-Definition node_tail (w : world) (i : Z) (f : fault) (oc : option claim) (dl : option Z) (cgone stale : bool)
+Definition node_tail (w : world) (i : Z) (cur : option node) (f : fault) (oc : option claim) (tw : bool) (dl : option Z) (cgone stale : bool)
   : list eff * res :=
   let hc := is_some oc in
   let cs0 : conds := match oc with Some c => (c_drained c, c_vol c, c_term c) | None => (DNone, VNone, false) end in
@@ -282,31 +319,33 @@ Definition node_tail (w : world) (i : Z) (f : fault) (oc : option claim) (dl : o
   let '(e4, stop4) :=
     if hc && negb (conds_eqb cs0 (a_conds a)) then
       let '(d, v, t) := a_conds a in
+      let st ok := if tw then EStatusTwin ok d v t else EStatus ok d v t in
       match status_patch_ans f cgone stale with
-      | PatchOk => ([EStatus true d v t], None)
-      | PatchNotFound => ([EStatus false d v t], None)
-      | PatchConflict => ([EStatus false d v t], Some RRequeue)
-      | PatchOther => ([EStatus false d v t], Some RErr)
+      | PatchOk => ([st true], None)
+      | PatchNotFound => ([st false], None)
+      | PatchConflict => ([st false], Some RRequeue)
+      | PatchOther => ([st false], Some RErr)
       end
     else ([], None) in
   match stop4 with
   | Some r => (a_effs a ++ e4, r)
   | None =>
       match a_res a with
-      | ROk => let '(e, r) := rm_node_fin i f in (a_effs a ++ e4 ++ e, r)
+      | ROk => let '(e, r) := rm_node_fin i cur f in (a_effs a ++ e4 ++ e, r)
       | r => (a_effs a ++ e4, r)
       end
   end.
 
 (* Delete the NodeClaim if it is not deleting yet: effects, hard error, in-memory copy stale, object gone *)
-Definition del_claim_step (oc : option claim) (f : fault) : list eff * bool * bool * bool :=
+Definition del_claim_step (oc : option claim) (tw : bool) (f : fault) : list eff * bool * bool * bool :=
+  let dl ok := if tw then EDelTwin ok else EDelClaim ok in
   match oc with
   | Some c =>
       if is_some (c_del c) then ([], false, false, false)
       else match fails f SDelClaim with
-           | Some KNotFound => ([EDelClaim false], false, false, false)
-           | Some _ => ([EDelClaim false], true, false, false)
-           | None => ([EDelClaim true], false, true, negb (c_fin c))
+           | Some KNotFound => ([dl false], false, false, false)
+           | Some _ => ([dl false], true, false, false)
+           | None => ([dl true], false, true, negb (c_fin c))
            end
   | None => ([], false, false, false)
   end.
@@ -322,38 +361,55 @@ Definition not_ready_step (n : node) (s0 : inst) (f : fault) : list eff * option
                  end
        end.
 
-(* Terminator.Taint: patch only when the taint or the load-balancer label is missing *)
-Definition taint_step (n : node) (f : fault) : list eff * option res :=
+(* Terminator.Taint: patch only when the taint or the load-balancer label is missing; the patch carries the
+   resourceVersion of the object the reconcile was handed [n] and conflicts when the API holds another version *)
+Definition taint_step (n : node) (cur : option node) (f : fault) : list eff * option res :=
   if n_taint n && n_lbl n then ([], None)
   else match fails f STaint with
        | Some KConflict => ([ETaint (n_id n) false], Some RRequeue)
        | Some _ => ([ETaint (n_id n) false], Some RErr)
-       | None => ([ETaint (n_id n) true], None)
+       | None => match cur with
+                 | None => ([ETaint (n_id n) false], Some RErr)
+                 | Some m => if node_eqb n m then ([ETaint (n_id n) true], None)
+                             else ([ETaint (n_id n) false], Some RRequeue)
+                 end
        end.
 
+(* [n] is the Node object handed to Reconcile (the current one, or an older version from a lagging cache) *)
 Definition node_finalize (w : world) (n : node) (f : fault) : list eff * res :=
   let i := n_id n in
+  let cur := get_node i (w_nodes w) in
   match fails f SListClaims with Some _ => ([], RErr) | None =>
   let oc := visible_claim w in
-  let '(e1, stop1, stale, cgone) := del_claim_step oc f in
+  let tw := on_twin w in
+  let '(e1, stop1, stale, cgone) := del_claim_step oc tw f in
   if stop1 then (e1, RErr) else
   let '(e2, short) := not_ready_step n (w_inst w) f in
   match short with
   | Some false => (e1 ++ e2, RErr)
-  | Some true => let '(e, r) := rm_node_fin i f in ((e1 ++ e2) ++ e, r)
+  | Some true => let '(e, r) := rm_node_fin i cur f in ((e1 ++ e2) ++ e, r)
   | None =>
   match term_time oc with None => (e1 ++ e2, RErr) | Some dl =>
-  let '(e3, stop3) := taint_step n f in
+  let '(e3, stop3) := taint_step n cur f in
   match stop3 with
   | Some r => ((e1 ++ e2) ++ e3, r)
-  | None => let '(et, r) := node_tail w i f oc dl cgone stale in ((e1 ++ e2) ++ e3 ++ et, r)
+  | None => let '(et, r) := node_tail w i cur f oc tw dl cgone stale in ((e1 ++ e2) ++ e3 ++ et, r)
   end end end end.
+
+Definition node_reconcile_at (w : world) (n : node) (f : fault) : list eff * res :=
+  if n_del n && n_fin n && n_managed n then node_finalize w n f else ([], ROk).
 
 Definition node_reconcile (w : world) (i : Z) (f : fault) : list eff * res :=
   match get_node i (w_nodes w) with
   | None => ([], ROk)
-  | Some n => if n_del n && n_fin n && n_managed n then node_finalize w n f else ([], ROk)
+  | Some n => node_reconcile_at w n f
   end.
+
+(* what may differ between an older version of a Node and the current one: taint, label and deletion mark are only
+   ever added; readiness and the finalizer may have changed either way *)
+Definition older_node (old cur : node) : bool :=
+  (n_id old =? n_id cur) && Bool.eqb (n_managed old) (n_managed cur)
+  && implb (n_taint old) (n_taint cur) && implb (n_lbl old) (n_lbl cur) && implb (n_del old) (n_del cur).
 
 (* ------------------------------------------------------------------ NodeClaim lifecycle controller *)
 
@@ -370,8 +426,13 @@ Fixpoint delete_nodes (f : fault) (ns : list node) : list eff * bool :=
            end
   end.
 
-Definition rm_claim_fin (f : fault) : list eff * res :=
-  match fails f SRmClaimFin with
+(* every patch of finalize carries the resourceVersion of the object the reconcile was handed: [lk] is the answer
+   of the API server to such a patch when nothing is injected (None = versions agree) *)
+Definition lfails (lk : option ekind) (f : fault) (s : site) : option ekind :=
+  match fails f s with Some k => Some k | None => lk end.
+
+Definition rm_claim_fin (lk : option ekind) (f : fault) : list eff * res :=
+  match lfails lk f SRmClaimFin with
   | Some KConflict => ([ERmClaimFin false], RRequeue)
   | Some KNotFound => ([ERmClaimFin false], ROk)
   | Some KServer => ([ERmClaimFin false], RErr)
@@ -380,14 +441,14 @@ Definition rm_claim_fin (f : fault) : list eff * res :=
 
 Definition claim_nodes (w : world) (c : claim) : list node := if c_pid c then w_nodes w else [].
 
-Definition claim_finalize (w : world) (c : claim) (tdel : Z) (f : fault) : list eff * res :=
+Definition claim_finalize (w : world) (c : claim) (tdel : Z) (lk : option ekind) (f : fault) : list eff * res :=
   let s0 := w_inst w in
   if negb (c_fin c) then ([], ROk) else
   (* ensureTerminationGracePeriodTerminationTimeAnnotation *)
   let '(e1, stop1) :=
     match c_annot c, c_tgp c with
     | ANone, Some g =>
-        match fails f SAnnot with
+        match lfails lk f SAnnot with
         | Some KNotFound => ([EAnnot false (tdel + g)], None)
         | Some KConflict => ([EAnnot false (tdel + g)], Some RRequeue)
         | Some KServer => ([EAnnot false (tdel + g)], Some RErr)
@@ -417,7 +478,7 @@ Definition claim_finalize (w : world) (c : claim) (tdel : Z) (f : fault) : list 
         let pre := e1 ++ e2 ++ [EProvDelete a] in
         let '(e3, stop3) :=
           if c_term c then ([], None)
-          else match fails f SPatchStatus with
+          else match lfails lk f SPatchStatus with
                | Some KNotFound => ([EStatus false (c_drained c) (c_vol c) true], Some ROk)
                | Some KConflict => ([EStatus false (c_drained c) (c_vol c) true], Some RRequeue)
                | Some KServer => ([EStatus false (c_drained c) (c_vol c) true], Some RErr)
@@ -425,11 +486,11 @@ Definition claim_finalize (w : world) (c : claim) (tdel : Z) (f : fault) : list 
                end in
         match stop3 with Some r => (pre ++ e3, r) | None =>
         match a with
-        | PNotFound => let '(e, r) := rm_claim_fin f in (pre ++ e3 ++ e, r)
+        | PNotFound => let '(e, r) := rm_claim_fin lk f in (pre ++ e3 ++ e, r)
         | _ => (pre ++ e3, RAfter5)
         end end
     end
-  else let '(e, r) := rm_claim_fin f in (e1 ++ e2 ++ e, r)
+  else let '(e, r) := rm_claim_fin lk f in (e1 ++ e2 ++ e, r)
   end end.
 
 (* Reconcile of a NodeClaim that is not deleting: finalizer first, then launch and persist.
@@ -469,18 +530,35 @@ Definition claim_reconcile (w : world) (f : fault) : list eff * res * bool :=
   | Some c =>
       if negb (c_managed c) then ([], ROk, w_cache w)
       else match c_del c with
-           | Some t => let '(e, r) := claim_finalize w c t f in (e, r, w_cache w)
+           | Some t => let '(e, r) := claim_finalize w c t None f in (e, r, w_cache w)
            | None => claim_launch w c f
            end
   end.
 
+(* Reconcile handed an older version [old] of the NodeClaim. Only the finalize path is modelled for a version that
+   differs from the current one (a stale object that is not deleting belongs to the launch protocol, C14). *)
+Definition claim_lock (w : world) (old : claim) : option ekind :=
+  match w_claim w with
+  | None => Some KNotFound
+  | Some c => if claim_eqb old c then None else Some KConflict
+  end.
+Definition claim_reconcile_at (w : world) (old : claim) (f : fault) : list eff * res * bool :=
+  if negb (c_managed old) then ([], ROk, w_cache w)
+  else match c_del old with
+       | Some t => let '(e, r) := claim_finalize w old t (claim_lock w old) f in (e, r, w_cache w)
+       | None => match claim_lock w old with
+                 | None => claim_launch w old f
+                 | Some _ => ([], ROk, w_cache w)
+                 end
+       end.
+
 (* ------------------------------------------------------------------ what the API server does with the writes *)
 
 Definition upd_claim (g : claim -> option claim) (w : world) : world :=
-  W (w_now w) (w_nodes w) (match w_claim w with Some c => g c | None => None end)
+  W (w_now w) (w_nodes w) (match w_claim w with Some c => g c | None => None end) (w_twin w)
     (w_pods w) (w_vas w) (w_inst w) (w_cache w).
 Definition upd_nodes (g : list node -> list node) (w : world) : world :=
-  W (w_now w) (g (w_nodes w)) (w_claim w) (w_pods w) (w_vas w) (w_inst w) (w_cache w).
+  W (w_now w) (g (w_nodes w)) (w_claim w) (w_twin w) (w_pods w) (w_vas w) (w_inst w) (w_cache w).
 Definition upd_node (i : Z) (g : node -> option node) (w : world) : world :=
   match get_node i (w_nodes w) with
   | Some n => match g n with
@@ -491,7 +569,7 @@ Definition upd_node (i : Z) (g : node -> option node) (w : world) : world :=
   end.
 
 Definition set_inst (s : inst) (k : bool) (w : world) : world :=
-  W (w_now w) (w_nodes w) (w_claim w) (w_pods w) (w_vas w) s k.
+  W (w_now w) (w_nodes w) (w_claim w) (w_twin w) (w_pods w) (w_vas w) s k.
 
 Definition api_delete_claim (now : Z) (c : claim) : option claim :=
   match c_del c with
@@ -530,6 +608,15 @@ Definition apply_eff (w : world) (e : eff) : world :=
   | EPersist true =>
       upd_claim (fun c => Some (C (c_managed c) (c_fin c) (c_del c) true (c_registered c) (c_tgp c)
                                   (c_annot c) (c_drained c) (c_vol c) (c_term c))) w
+  | EDelTwin true =>
+      W (w_now w) (w_nodes w) (w_claim w) (match w_twin w with Some c => api_delete_claim (w_now w) c | None => None end)
+        (w_pods w) (w_vas w) (w_inst w) (w_cache w)
+  | EStatusTwin true d v t =>
+      W (w_now w) (w_nodes w) (w_claim w)
+        (match w_twin w with
+         | Some c => Some (C (c_managed c) (c_fin c) (c_del c) (c_pid c) (c_registered c) (c_tgp c) (c_annot c) d v t)
+         | None => None end)
+        (w_pods w) (w_vas w) (w_inst w) (w_cache w)
   | EProvDelete PNil => set_inst (snd (prov_delete (w_inst w))) (w_cache w) w
   | EProvCreate true => set_inst (prov_create (w_inst w)) (w_cache w) w
   | _ => w
@@ -540,7 +627,7 @@ Definition apply_effs (w : world) (es : list eff) : world := fold_left apply_eff
 (* ------------------------------------------------------------------ environment *)
 
 Definition upd_pods (g : list pod -> list pod) (w : world) : world :=
-  W (w_now w) (w_nodes w) (w_claim w) (g (w_pods w)) (w_vas w) (w_inst w) (w_cache w).
+  W (w_now w) (w_nodes w) (w_claim w) (w_twin w) (g (w_pods w)) (w_vas w) (w_inst w) (w_cache w).
 
 Definition env_step (w : world) (o : op) : world :=
   match o with
@@ -554,10 +641,10 @@ Definition env_step (w : world) (o : op) : world :=
                               then P (p_id p) (p_node p) true (p_tol p) (p_static p) (p_del p) (p_pvs p) else p)) w
   | EnvPodAdd p => if existsb (fun q => p_id q =? p_id p) (w_pods w) then w else upd_pods (fun ps => ps ++ [p]) w
   | EnvVAGone j =>
-      W (w_now w) (w_nodes w) (w_claim w) (w_pods w) (filter (fun v => negb (v_id v =? j)) (w_vas w))
+      W (w_now w) (w_nodes w) (w_claim w) (w_twin w) (w_pods w) (filter (fun v => negb (v_id v =? j)) (w_vas w))
         (w_inst w) (w_cache w)
   | EnvInstGone => set_inst (match w_inst w with INone => INone | _ => IGone end) (w_cache w) w
-  | EnvTick dt => W (w_now w + Z.max dt 0) (w_nodes w) (w_claim w) (w_pods w) (w_vas w) (w_inst w) (w_cache w)
+  | EnvTick dt => W (w_now w + Z.max dt 0) (w_nodes w) (w_claim w) (w_twin w) (w_pods w) (w_vas w) (w_inst w) (w_cache w)
   | EnvReady i b =>
       upd_node i (fun n => Some (N (n_id n) (n_managed n) (n_fin n) (n_del n) (n_taint n) (n_lbl n) b)) w
   | EnvDelNode i => upd_node i api_delete_node w
@@ -568,6 +655,7 @@ Definition env_step (w : world) (o : op) : world :=
                                        (c_drained c) (c_vol c) (c_term c)
                                 else c)) w
   | EnvRestart => set_inst (w_inst w) false w
+  | EnvInstShutting => set_inst (match w_inst w with IRunning => IShutting | x => x end) (w_cache w) w
   | _ => w
   end.
 
@@ -577,10 +665,13 @@ Definition decide (w : world) (o : op) : list eff * res * bool :=
   match o with
   | RNode i f => let '(e, r) := node_reconcile w i f in (e, r, w_cache w)
   | RClaim f => claim_reconcile w f
+  | RNodeStale old f => let '(e, r) := node_reconcile_at w old f in (e, r, w_cache w)
+  | RClaimStale old f => claim_reconcile_at w old f
   | _ => ([], ROk, w_cache w)
   end.
 
-Definition is_env (o : op) : bool := match o with RNode _ _ | RClaim _ => false | _ => true end.
+Definition is_env (o : op) : bool :=
+  match o with RNode _ _ | RClaim _ | RNodeStale _ _ | RClaimStale _ _ => false | _ => true end.
 
 Definition step (w : world) (o : op) : world * (list eff * res) :=
   if is_env o then (env_step w o, ([], ROk))
@@ -604,10 +695,10 @@ Definition va_blocks (w : world) (i : Z) (v : va) : Prop :=
   v_node v = i /\ exists x, v_pv v = Some x /\
     forall p, In p (w_pods w) -> p_node p = i -> drainable (w_now w) p = false -> ~ In x (p_pvs p).
 
-Definition node_has_claim (w0 : world) : Prop := exists c, w_claim w0 = Some c /\ c_pid c = true.
+Definition node_has_claim (w0 : world) : Prop := exists c, visible_claim w0 = Some c.   (* exactly one NodeClaim *)
 
 Definition tgp_expired (w0 w : world) : Prop :=
-  exists c t, w_claim w0 = Some c /\ c_pid c = true /\ c_annot c = AAt t /\ w_now w > t.
+  exists c t, visible_claim w0 = Some c /\ c_annot c = AAt t /\ w_now w > t.
 
 Definition node_fin_ok (w0 w : world) (i : Z) : Prop :=
   exists n, get_node i (w_nodes w) = Some n /\
@@ -616,6 +707,15 @@ Definition node_fin_ok (w0 w : world) (i : Z) : Prop :=
     ((forall v, In v (w_vas w) -> ~ va_blocks w i v) \/ tgp_expired w0 w) /\
     inst_absent (w_inst w) = true)
    \/ (n_ready n = false /\ inst_absent (w_inst w) = true)).
+
+(* the same when the reconcile was handed an older version of the Node: "not Ready" is what that version said *)
+Definition node_fin_ok_seen (w0 w : world) (i : Z) (seen_ready : bool) : Prop :=
+  exists n, get_node i (w_nodes w) = Some n /\
+  ((n_taint n = true /\
+    (forall p, In p (w_pods w) -> p_node p = i -> can_drain p -> stuck_terminating (w_now w) p) /\
+    ((forall v, In v (w_vas w) -> ~ va_blocks w i v) \/ tgp_expired w0 w) /\
+    inst_absent (w_inst w) = true)
+   \/ (seen_ready = false /\ inst_absent (w_inst w) = true)).
 
 (* "its Nodes are gone (if it registered)" and "the provider reports the instance not found (if it was ever
    launched)": an instance that was created at some time is in state IGone *)
@@ -626,8 +726,8 @@ Definition claim_fin_ok (w : world) : Prop := claim_nodes_gone w /\ claim_instan
 
 (* boolean oracles (proved equivalent in Proofs.v) *)
 Definition tgp_expired_b (w0 w : world) : bool :=
-  match w_claim w0 with
-  | Some c => c_pid c && match c_annot c with AAt t => t <? w_now w | _ => false end
+  match visible_claim w0 with
+  | Some c => match c_annot c with AAt t => t <? w_now w | _ => false end
   | None => false
   end.
 Definition node_fin_ok_b (w0 w : world) (i : Z) : bool :=
@@ -638,6 +738,15 @@ Definition node_fin_ok_b (w0 w : world) (i : Z) : bool :=
        && ((match pending_vas i w with [] => true | _ => false end) || tgp_expired_b w0 w)
        && inst_absent (w_inst w))
       || (negb (n_ready n) && inst_absent (w_inst w))
+  end.
+Definition node_fin_ok_seen_b (w0 w : world) (i : Z) (seen_ready : bool) : bool :=
+  match get_node i (w_nodes w) with
+  | None => false
+  | Some n =>
+      (n_taint n && drain_done i w
+       && ((match pending_vas i w with [] => true | _ => false end) || tgp_expired_b w0 w)
+       && inst_absent (w_inst w))
+      || (negb seen_ready && inst_absent (w_inst w))
   end.
 Definition node_has_claim_b (w0 : world) : bool := is_some (visible_claim w0).
 Definition claim_fin_ok_b (w : world) : bool :=
@@ -655,19 +764,35 @@ Definition orphaned (pre post : world) : bool :=
 (* the world at the instant of the last write of a reconcile *)
 Definition instant (w : world) (es : list eff) : world := apply_effs w (removelast es).
 
-(* the launch reconcile persists what it created (no fault on the two patches after Create) *)
-Definition persists (o : op) : bool :=
-  match o with
-  | RClaim (Some (SPatchMeta, _)) | RClaim (Some (SPatchStatusL, _)) => false
-  | _ => true
-  end.
-
-(* well-formed worlds. [finalizer_before_launch]: an instance exists only for a claim that carries the finalizer
-   (C14: the finalizer is added before Create). [launched_persisted]: ... and that recorded the provider id. *)
+(* well-formed initial worlds: an instance exists only for a claim that carries the finalizer
+   (C14: the finalizer is added before Create) *)
 Definition never_created (s : inst) : bool := match s with INone => true | _ => false end.
 Definition finalizer_before_launch_b (w : world) : bool :=
   match w_claim w with None => true | Some c => never_created (w_inst w) || c_fin c end.
-Definition launched_persisted_b (w : world) : bool :=
-  match w_claim w with None => true | Some c => never_created (w_inst w) || (c_fin c && c_pid c) end.
 Definition finalizer_before_launch (w : world) : Prop := finalizer_before_launch_b w = true.
-Definition launched_persisted (w : world) : Prop := launched_persisted_b w = true.
+
+(* ---- the weakest premises (deepening round) ---- *)
+
+(* what the claim finalizer needs in the world it runs in: an existing instance is recorded on the claim *)
+Definition recorded_or_absent_b (w : world) : bool :=
+  match w_claim w with None => true | Some c => c_pid c || inst_absent (w_inst w) end.
+Definition recorded_or_absent (w : world) : Prop := recorded_or_absent_b w = true.
+
+(* the invariant that carries no-orphan without assuming that launches persist: an existing instance belongs to a
+   claim that has the finalizer and either recorded the provider id or is not deleting yet (the launch cache or a
+   repeated, idempotent Create will record it) *)
+Definition accounted_b (w : world) : bool :=
+  match w_claim w with
+  | None => true
+  | Some c => inst_absent (w_inst w) || (c_fin c && (c_pid c || negb (is_some (c_del c))))
+  end.
+Definition accounted (w : world) : Prop := accounted_b w = true.
+
+(* histories in which nobody deletes the NodeClaim while it holds an unrecorded instance *)
+Fixpoint deletes_recorded (w : world) (ops : list op) : bool :=
+  match ops with
+  | [] => true
+  | o :: rest =>
+      (match o with EnvDelClaim => recorded_or_absent_b w | _ => true end)
+      && deletes_recorded (fst (step w o)) rest
+  end.
